@@ -4,6 +4,7 @@
 --setup        offline sanity: imports, goodwe resolves to /repo, a short determinism test (exit 0/2)
 --determinism  N seeds x 2 executions in different children, at two worker counts, plus a fresh interpreter
                under another PYTHONHASHSEED; all digests must agree
+--silence      apply each refactors/<id>/patch.diff (behaviour-preserving refactorings) and expect every check at exit 0
 --mutants      apply each seeded/<id>/patch.diff to a scratch copy of /repo and expect the listed check to report
                a VIOLATION with --src pointing at the copy
 """
@@ -103,6 +104,39 @@ def mutants(ids):
     return failed
 
 
+def silence(ids):
+    """Behaviour-preserving refactorings (refactors/<id>/patch.diff) must leave EVERY check at exit 0."""
+    failed = 0
+    pids = ["C%02d" % i for i in range(1, 21)]
+    for d in sorted(glob.glob(os.path.join(ROOT, "refactors", "[!_]*"))):
+        name = os.path.basename(d)
+        if ids and name not in ids:
+            continue
+        tmp = tempfile.mkdtemp(prefix="goodwe-ref-")
+        try:
+            dst = os.path.join(tmp, "repo")
+            shutil.copytree("/repo", dst, ignore=shutil.ignore_patterns(".git", "__pycache__", ".benchmarks"))
+            subprocess.run(["git", "init", "-q", "."], cwd=dst, capture_output=True)
+            p = subprocess.run(["git", "apply", "--whitespace=nowarn", os.path.join(d, "patch.diff")], cwd=dst,
+                               capture_output=True, text=True)
+            if p.returncode != 0:
+                print(f"{name}: patch does not apply: {p.stderr}")
+                failed += 1
+                continue
+            for pid in pids:
+                q = subprocess.run([PY, os.path.join(ROOT, "check.py"), pid, "--tier", "quick", "--src", dst,
+                                    "--no-evidence", "--no-shrink"], capture_output=True, text=True, timeout=3600)
+                ok = q.returncode == 0
+                if not ok:
+                    failed += 1
+                    print(f"{name}: {pid} -> exit {q.returncode} ALARM")
+                    print("   " + "\n   ".join(l for l in q.stdout.splitlines() if l.startswith("  C") or "HARNESS" in l)[:1500])
+            print(f"{name}: done")
+        finally:
+            shutil.rmtree(tmp, ignore_errors=True)
+    return failed
+
+
 def main():
     if os.environ.get("PYTHONHASHSEED") is None:
         os.environ["PYTHONHASHSEED"] = "0"
@@ -125,6 +159,8 @@ def main():
         return
     if a[0] == "--mutants":
         sys.exit(1 if mutants(a[1:]) else 0)
+    if a[0] == "--silence":
+        sys.exit(1 if silence(a[1:]) else 0)
     print(__doc__)
 
 
